@@ -93,6 +93,7 @@ def model_expr(a):
 
 
 # ----------------------------------------------------------------------------------- rendering to MCNP text
+TRAIL = ["", "", "", " ", "  ", " $ end note", "\nc last line", " $ end  "]
 GAPS = [" ", " ", " ", "  ", "\n     ", "\n        ", " $ a note\n     ", "\nc a line\n     ", " &\n     ", " $ x ( : # 5\n      "]
 TIGHT = ["", "", " ", "\n     ", " $ t\n     "]
 
@@ -340,15 +341,15 @@ def run_impl(case):
     montepy = mp.montepy
     res = {"steps": []}
     try:
+        ids = Ids()
+        res["ctr"] = 1000000  # fresh node ids of the model start above every serialised id
         if case["origin"] == "parsed":
             try:
                 prob, cell = fresh_problem("1 0 " + case["text"])
             except (montepy.errors.ParsingError, montepy.errors.MalformedInputError) as e:
                 return {"rejected": type(e).__name__}
-            ids = Ids()
             tree = ser_tree(cell._tree["geometry"], ids)
             res["tree"] = tree
-            res["ctr"] = len(ids.map) + 1
             res["tree_text"] = abstract(cell._tree["geometry"].format(), stop_at_parameters=False)
         else:
             prob, _ = fresh_problem()
@@ -356,7 +357,6 @@ def run_impl(case):
             cell.number = 1
             cell.geometry = build(case["init"], prob)
             prob.cells.append(cell)
-            res["ctr"] = 1
         res["init_str"] = str(cell.geometry)
         vs = [tuple(v) for v in case["vars"]]
         res["init_table"] = table(lambda env: hs_eval(cell.geometry, env), vs) if hs_leaves(cell.geometry, set()) <= set(vs) else None
@@ -370,7 +370,19 @@ def run_impl(case):
                 if k == "not":
                     cell.geometry = ~cell.geometry
                 else:
-                    x = build(op["x"], prob)
+                    if "xt" in op:
+                        # the operand is the geometry of another cell that was read
+                        try:
+                            other = mp.cell_from(f"{10 + len(res['steps'])} 0 " + op["xt"])
+                        except (montepy.errors.ParsingError, montepy.errors.MalformedInputError) as e:
+                            return {"rejected": type(e).__name__}
+                        prob.cells.append(other)
+                        other.link_to_problem(prob)
+                        other.update_pointers(prob.cells, prob.materials, prob.surfaces)
+                        st["xtree"] = ser_tree(other._tree["geometry"], ids)
+                        x = other.geometry
+                    else:
+                        x = build(op["x"], prob)
                     if k == "and":
                         cell.geometry = cell.geometry & x
                     elif k == "rand":
@@ -456,12 +468,14 @@ def gen_ops(rng, maxlen=8):
             ops.append({"k": "write"})
         else:
             k = rng.choice(["and", "or", "rand", "ror", "iand", "iand", "ior", "ior"])
-            ops.append({"k": k, "x": gen_ast(rng, rng.choice([1, 1, 1, 2, 2, 3]), par=False)})
+            op = {"k": k, "x": gen_ast(rng, rng.choice([1, 1, 1, 2, 2, 3]), par=False)}
+            if rng.random() < 0.2:
+                # operand = geometry of another cell that was read (keeps its padding and comments)
+                op["x"] = gen_ast(rng, rng.choice([1, 2, 2, 3]), par=True)
+                op["xt"] = render(op["x"], rng) + rng.choice(TRAIL)
+            ops.append(op)
     ops.append({"k": "write"})
     return ops
-
-
-TRAIL = ["", "", "", " ", "  ", " $ end note", "\nc last line"]
 
 
 def make_case(origin, init, ops, rng=None, plain=False):
